@@ -23,11 +23,28 @@ func vbDefaultOf(kind int, x int64) any {
 // VerifLemma_C03J_IntegerDefaults: for two default values of the kinds int32 / int64 / uint32 / uint64 / bool
 // (kinds chosen independently: a kind change is FIELD_SAME_TYPE's business, the default comparison is lenient about
 // it), with arbitrary 64-bit patterns: defaultsEqual says "equal" exactly when the two values are numerically equal.
-// In particular 64-bit defaults beyond 2^53 that differ by one are different.
+// In particular 64-bit defaults beyond 2^53 that differ by one are different. Param D > 0: the current value is within
+// +-D of the previous one (quick tier); D = 0: independent values (thorough tier). Param XK = 0: both sides have the same kind; XK = 1: kinds independent.
 func VerifLemma_C03J_IntegerDefaults() {
-	pk, ck := verifNondetChoice(5), verifNondetChoice(5)
+	pk := verifNondetChoice(5)
+	ck := pk
+	if verifParam("XK") > 0 {
+		ck = verifNondetChoice(5) // cross-kind comparisons (the kernel is lenient about kind changes)
+	}
 	px := verifNondetInt64(-9223372036854775808, 9223372036854775807)
-	cx := verifNondetInt64(-9223372036854775808, 9223372036854775807)
+	var cx int64
+	if w := verifNondetChoice(4); w > 0 {
+		// concrete witnesses beyond 2^53 (also executable by an implementation that goes through machine floats,
+		// which the engine cannot run on symbolic values): 2^53+1, MaxInt64, MinInt64+1
+		px = []int64{0, 9007199254740993, 9223372036854775807, -9223372036854775807}[w]
+		cx = px - 1
+	} else if d := int64(verifParam("D")); d > 0 {
+		// neighbouring values (wrapping): the pairs that limited precision would confuse; keeps both values in
+		// (nearly) the same binary exponent class, which is what the path count is a product of
+		cx = px + verifNondetInt64(-d, d)
+	} else {
+		cx = verifNondetInt64(-9223372036854775808, 9223372036854775807)
+	}
 	p, c := vbDefaultOf(pk, px), vbDefaultOf(ck, cx)
 	got := defaultsEqual(fieldDefault{comparable: p, printable: p}, fieldDefault{comparable: c, printable: c})
 	verifCover("defaultsEqual returned")
